@@ -87,7 +87,23 @@ func c19get(ctx *fakeKCtx, name string) (c19Account, bool) {
 // TestC19ReplayTransfer: the transfer postcondition of property C19 evaluated on the real code.
 func TestC19ReplayTransfer(t *testing.T) {
 	var sc c19Scenario
-	if err := json.Unmarshal([]byte(os.Getenv("C19_SCENARIO")), &sc); err != nil {
+	if w := os.Getenv("REPLAY_WITNESS"); w != "" {
+		// the verifier's model: abstract view of sender / receiver records and the amount
+		var m struct {
+			SenderTotal, SenderOrdinary, SenderTdpos, ReceiverTotal, ReceiverOrdinary, ReceiverTdpos, Amount int64
+			ReceiverExists, SameAccount                                                                       bool
+		}
+		if err := json.Unmarshal([]byte(w), &m); err != nil {
+			t.Skip("bad witness")
+		}
+		sc.From, sc.To, sc.Amount = "alice", "bob", m.Amount
+		sc.Accounts = []c19Account{{Name: "alice", Total: m.SenderTotal, Ordinary: m.SenderOrdinary, Tdpos: m.SenderTdpos}}
+		if m.SameAccount {
+			sc.To = "alice"
+		} else if m.ReceiverExists {
+			sc.Accounts = append(sc.Accounts, c19Account{Name: "bob", Total: m.ReceiverTotal, Ordinary: m.ReceiverOrdinary, Tdpos: m.ReceiverTdpos})
+		}
+	} else if err := json.Unmarshal([]byte(os.Getenv("C19_SCENARIO")), &sc); err != nil {
 		t.Skip("no scenario")
 	}
 	ctx := &fakeKCtx{kv: map[string][]byte{}, args: map[string][]byte{"to": []byte(sc.To), "amount": []byte(big.NewInt(sc.Amount).String())}, initiator: sc.From}
